@@ -1,4 +1,4 @@
-"""C14 — a successful sync makes the destination a superset and touches nothing else."""
+"""C14 — sync never overwrites conflicts unless told to; failed syncs roll documents back."""
 from . import sync_gen
 
 PROP = "C14"
@@ -8,27 +8,34 @@ MISMATCHES = "mismatches_C14"
 VIOLATIONS = "violations_C14"
 KNOWN = "known_C14"
 SHARD = 40
-RULE = ("seeded random pairs of real projects over the universe of the property text (0-4 jobs each, overlapping / disjoint "
-        "ids, files identical / differing / one-sided with explicit mtimes, nested and empty directories, file-vs-directory "
-        "clashes, job and project documents overlapping / nested / conflicting / mixed-type) x options (strategy None/always/"
-        "never/update/custom, doc_sync default/ByKey(pred|regex)/update/NO_SYNC/COPY, recursive, exclude str/list, selection "
-        "by id/job, check_schema) x entry point (Project.sync, sync_projects, Job.sync, sync_jobs incl. uninitialised jobs and "
-        "jobs with different state points); every successful call is repeated. non-trivial: the call changed the destination "
-        "or raised; distinct by the JSON of the scenario")
+RULE = ("conflict-oriented seeded random pairs of the C13 universe (half of the shared files differ: same size / different size, "
+        "older / equal / newer mtime, top level and nested; half of the shared document keys differ: flat, nested, mixed-type) x "
+        "all strategies and key strategies (None, predicate, regex) x job-level and project-level entry points; plus two bounded-"
+        "exhaustive cores: one shared file (3 content relations x 4 mtime relations x 6 strategies x 2 depths x recursive x entry) "
+        "and one shared key (10 x 10 values x 6 document strategies x depth 1..3); quick samples the cores.  non-trivial: the "
+        "call changed the destination or raised; distinct by the JSON of the scenario")
 TRUSTED = [
     "float.__repr__ as an oracle table (documents); re.match outcomes for exclude patterns / regex key strategies as tables "
     "computed by the harness over every name occurring in the scenario",
-    "filecmp.dircmp, shutil.copy/copytree, synced_collections JSON documents are modelled, not verified",
+    "filecmp.dircmp / filecmp.cmp, shutil.copy / copytree, synced_collections JSON documents (write on every assignment, "
+    "json.dumps text) are modelled, not verified; the os.scandir order of every directory and the iteration order of "
+    "list(project) are observed and fed to the model",
     "detect_schema is modelled for flat int/str state points only (set of (key, value))",
+    "with parallel=True/int and an exception the destination tree depends on the schedule: only the exception class and the "
+    "source are compared there (the worker threads are joined before the snapshot: ThreadPool.terminate() does not)",
 ]
 ASSUMPTIONS = ["both workspaces are valid (directory name = id of the state point file)", "no symbolic links",
-               "file mtimes precede the call (set explicitly); preserve_* options at their defaults"]
+               "file mtimes precede the call (set explicitly with os.utime); preserve_* / follow_symlinks at their defaults",
+               "document keys are distinct and contain no '.'"]
 
 
 def gen_inputs(tier, rng):
-    n = 260 if tier == "quick" else 6000
-    return [sync_gen.rand_scenario(rng, PROP) for _ in range(n)]
-
+    n = 260 if tier == "quick" else 5000
+    descs = [sync_gen.rand_scenario(rng, PROP) for _ in range(n)]
+    files, docs = sync_gen.core_file_cases(), sync_gen.core_doc_cases()
+    if tier == "quick":
+        files, docs = rng.sample(files, 100), rng.sample(docs, 140)
+    return descs + files + docs
 
 def run_case(desc):
     return sync_gen.run_scenario(desc, PROP)
